@@ -517,6 +517,8 @@ def weigh(A, scheme, seed, symmetric):
         Wt = rs.randint(1, 10, size=(n, n)) / 10.0       # rest of a route does not change the float sum at all
         tiny = rs.rand(n, n) < (.3, .75, .9)[seed % 3]
         Wt[tiny] = (rs.randint(1, 10, size=int(tiny.sum())) * 1e-17 if seed % 2 else 10.0 ** rs.uniform(-17, -16, size=int(tiny.sum())))
+    elif scheme == 'absorb5':   # five values only, one of them (1e-17) absorbed by every other: masses of exact ties between
+        Wt = rs.choice([1e-17, .1, .2, .3, 1.0], size=(n, n))   # routes with different numbers of connections
     elif scheme == 'neartie':   # exactly representable lengths that differ by ~1e-6: near-ties that are not ties
         Wt = rs.randint(1, 4, size=(n, n)) + rs.randint(0, 3, size=(n, n)) * 2.0 ** -20
     elif scheme == 'bigint':    # large integers differing by 1 (relative difference 2e-6)
